@@ -247,13 +247,25 @@ def abstract_call(it, c, fn, bound):
     if c.returns is None:
         return None
     result = c.returns.fresh(ctx, f'ret_{fn.__name__}')
-    # determinism: tie scalar results to an uninterpreted function of the argument terms
+    _tie_to_uf(it, c, fn, bound, result)
+    return result
+
+
+def _tie_to_uf(it, c, fn, bound, result):
+    """Determinism of a pure parser: scalar results are an uninterpreted function of the argument
+    terms."""
+    from .strings import XStr
+    from .ext import SDecoded
+    ctx = it.ctx
     terms = []
     for k, v in bound.items():
         if isinstance(v, str):
             terms.append(z3.StringVal(v))
         elif isinstance(v, XStr):
             terms.append(v.term())
+        elif isinstance(v, SDecoded):
+            terms.append(v.raw.n if isinstance(v.raw.n, z3.ExprRef) else z3.IntVal(v.raw.n))
+            terms.append(v.raw.arr)      # the byte string: (length, contents)
         elif isinstance(v, (SEnum, SInt, enum.Enum)) or is_int_like(v):
             terms.append(z3.IntVal(T(v)) if isinstance(v, int) else T(v))
         elif isinstance(v, type):
@@ -274,7 +286,6 @@ def abstract_call(it, c, fn, bound):
                 f = _UF[key] = z3.Function(f'{fn.__name__}_{j}', *[t.sort() for t in terms],
                                            z3.IntSort())
             ctx.assume_type(o == f(*terms))
-    return result
 
 
 def call_by_contract(it, c, fn, bound):
@@ -674,6 +685,16 @@ def intrinsic(it, name, args, kwargs):
         fr_, nm = args
         v = fr_.fields.get(nm, UNBOUND)
         return not (v is UNBOUND or v is V.LOOP_UNKNOWN)
+    if name == 'abstract_result':
+        f = getattr(args[0], '__func__', args[0])
+        c2 = it.registry.lookup(f)
+        if c2 is None:
+            raise EngineError('abstract_result: no contract')
+        b2 = bind_args(f, list(args[1:]), {})
+        ctx2 = it.ctx
+        result = c2.returns.fresh(ctx2, f'spec_{f.__name__}')
+        _tie_to_uf(it, c2, f, b2, result)
+        return result
     if name == 'starts_with':
         from .strings import XStr
         x, lit = args
